@@ -16,6 +16,11 @@ use std::panic::{catch_unwind, AssertUnwindSafe};
 const NAMES: &[&str] = &["title", "textarea", "style", "xmp", "iframe", "noembed", "noframes", "script", "plaintext"];
 // '<', '/', '>', space, newline, quote and the 17 distinct letters of the nine names
 const ALPHA: &[u8] = b"</> \n\"abcdefhilmnoprstxy";
+/// Allowed markup that leaves a scanner with state (open tag, open quote, open comment) in front of the tag under test.
+const QUOTE_CONTEXTS: &[&str] = &[
+    "<div title=\"", "<div title='", "<a \"x\" '", "<div class=\"\n", "<p x=\"y\">", "<p x='y' z=\"w\"> \"", "<!-- \"", "<a\n'\n",
+    "<b \"><i '>", "<div title=\"a>b\" ", "<p\"", "<p>\"'",
+];
 
 // ---------------------------------------------------------------- the rule, written once more in Rust
 // (the renderers are checked against it on single-node trees: a literal placed as inline HTML in a paragraph and
@@ -243,6 +248,18 @@ pub fn run(cfg: &Cfg, rep: &mut Report) {
                         blk.extend_from_slice(b" <");
                         blk.extend_from_slice(&lit[1..]);
                         push_literal(&mut bt, rep, blk);
+                        n_struct += 1;
+                    }
+                    // after an allowed tag that holds quotes, comment openers or a cut-off attribute: a filter
+                    // that tracks tag or quote state over the block shows only behind such a context
+                    // (fixed masks: no draw from the random stream)
+                    for (ci, ctx) in QUOTE_CONTEXTS.iter().enumerate() {
+                        let lit = case_mask(&full, if ci % 2 == 0 { 0 } else { 0b0110_1001_0110 });
+                        let mut blk = ctx.as_bytes().to_vec();
+                        blk.extend_from_slice(&lit);
+                        blk.extend_from_slice(b"x</p>\n");
+                        push_literal(&mut bt, rep, blk);
+                        rep.count("quote-context-literal");
                         n_struct += 1;
                     }
                 }
